@@ -112,4 +112,31 @@ theorem renumber_conjugates (sem : Op → M)
   exact relabel_circuit_den sem hcomm act h1 hmul _
     (permFun_injective _ perm hlen hnd' hrange) hsem c _ hinv hinv'
 
+/-! ## S3: blocks -/
+/-- **list level**: replacing a block operation by its expansion (body in iteration order,
+parameters distributed, relabelled through the block's location) keeps the denotation, in any
+semantics that reads a block as the ordered product of its contents -/
+theorem den_expand_one (sem : Op → M) (b : Blocks)
+    (hblock : ∀ o inner, expandOp b o = some inner → sem o = den sem inner)
+    (pre post : List Op) (blk : Op) (inner : List Op) (h : expandOp b blk = some inner) :
+    den sem (pre ++ inner ++ post) = den sem (pre ++ blk :: post) := by
+  rw [den_append, den_append, den_append, den_cons, hblock blk inner h, mul_assoc]
+
+/-- **full flattening keeps the denotation**, to any depth -/
+theorem den_flattenOps (sem : Op → M) (b : Blocks)
+    (hblock : ∀ o inner, expandOp b o = some inner → sem o = den sem inner)
+    (fuel : Nat) (l : List Op) : den sem (flattenOps b fuel l) = den sem l := by
+  induction fuel generalizing l with
+  | zero => rfl
+  | succ fuel ih =>
+    simp only [flattenOps]
+    induction l with
+    | nil => rfl
+    | cons a t iht =>
+      rw [List.flatMap_cons, den_append, iht, den_cons]
+      congr 1
+      cases he : expandOp b a with
+      | none => simp [den]
+      | some body => simp only; rw [ih body, hblock a body he]
+
 end BqVerif.Circ
